@@ -125,6 +125,11 @@ def access (T : Tables) (C : Codec B V) : Nat → Nat → St B V → St B V
 def accesses (T : Tables) (C : Codec B V) (xs : List Nat) (s : St B V) : St B V :=
   xs.foldl (fun s u => access T C T.fuel u s) s
 
+/-- the raw lumps after the writer of `v` ran with value `x`: only `main v` (the returned bytes) and
+the lumps it stores directly (`wraw v`) can change. -/
+def applyWr (T : Tables) (C : Codec B V) (v : Nat) (x : V) (env : Nat → V) (raw : Nat → B) : Nat → B :=
+  fun l => if l ∈ (T.view v).main :: (T.view v).wraw then C.wr v x env raw l else raw l
+
 /-- one iteration of the first loop of `BSP.save`, for the order entry `l`. -/
 def saveStep (T : Tables) (C : Codec B V) (s : St B V) (l : Nat) : St B V :=
   match T.viewOfMain l with
@@ -139,11 +144,9 @@ def saveStep (T : Tables) (C : Codec B V) (s : St B V) (l : Nat) : St B V :=
         lost := s.lost ++ s.pending.filter fun p => p.2 == v }
       -- the writer runs and looks at other views
       let s1 := (T.view v).wdeps.foldl (fun s w => access T C T.fuel w s) s0
-      let out := C.wr v x (s1.env C) s1.raw
-      let ws := (T.view v).main :: (T.view v).wraw
       { s1 with
-        raw := fun l => if l ∈ ws then out l else s1.raw l
-        clr := fun l => if l ∈ ws then false else s1.clr l
+        raw := applyWr T C v x (s1.env C) s1.raw
+        clr := fun l => if l ∈ (T.view v).main :: (T.view v).wraw then false else s1.clr l
         pending := s1.pending.filter fun p => !(p.1 == v && (T.view v).restores.contains p.2) }
 
 /-- the rebuild loop of `BSP.save`. -/
@@ -188,7 +191,7 @@ def Topo (T : Tables) : Bool :=
     let S := reachAtSave T v
     (T.view v).wdeps.all (S.contains ·)
     && S.all (fun u => (T.view u).rdeps.all (S.contains ·))
-    && S.all (fun u => T.pos v < T.pos u)
+    && S.all (fun u => u < T.n && T.pos v < T.pos u)
 
 /-- the Topo violations, for messages: (view, reached view). -/
 def topoViolations (T : Tables) : List (Nat × Nat) :=
